@@ -53,9 +53,16 @@ Proof. exact read_irregular. Qed.
 Theorem C08_splitter_from_source : forall code buf s, handle_event code buf s = handle_event_src code buf s.
 Proof. exact handle_event_from_source. Qed.
 
+From Peppi Require Proofs.ReaderTies.
+(* the reader model these theorems speak about is the one regenerated from the source on this run: one-shot read, every incremental
+   entry point, the event dispatch with the splitter, the Game Start wiring, the metadata reader (Proofs/ReaderTies.v reader_tied) *)
+Theorem C08_reader_is_the_source : ReaderTies.reader_tied.
+Proof. exact ReaderTies.reader_tied_holds. Qed.
+
 Print Assumptions C08_unknown_event_skipped.
 Print Assumptions C08_unknown_events_anywhere.
 Print Assumptions C08_decoder_ignores_suffix.
 Print Assumptions C08_read_push_ignores_suffix.
 Print Assumptions C08_start_ignores_suffix.
 Print Assumptions C08_splitter_from_source.
+Print Assumptions C08_reader_is_the_source.
